@@ -1855,7 +1855,10 @@ class FileBuilder:
             # this call is a duplicate.
             self._new_cache.start_building_file(filename)
             try:
-                if (os.path.isfile(filename) and
+                # A symbolic link that refers to a nonexistent file is in the
+                # way too. The function would write through it, and we would
+                # remove the link instead of the file if the function raised.
+                if ((os.path.isfile(filename) or os.path.islink(filename)) and
                         self._backups.back_up_and_remove(filename)):
                     logger.info(
                         'Moved {:s} to a temporary directory, in preparation '
